@@ -43,6 +43,27 @@ JOBS = [
     dict(job=('specs.equalizer', 'play_and_compare', {}), props=['C08', 'C19']),
     dict(job=('specs.equalizer', 'within_worker', {'mode': 'dedicated'}), props=['C08', 'C13']),
     dict(job=('specs.equalizer', 'within_worker', {'mode': 'inprocess'}), props=['C08']),
+    # ---- cassettes: in-memory, file-based, MemoryRecording, TapeCassette base methods
+    dict(job=('specs.cassettes', 'in_memory_roundtrip', {}), props=['C07', 'C11', 'C02', 'C09', 'C05']),
+    dict(job=('specs.cassettes', 'memory_recording', {}), props=['C07', 'C11', 'C01', 'C05', 'C18']),
+    dict(job=('specs.cassettes', 'in_memory_create', {}), props=['C07', 'C10', 'C04']),
+    dict(job=('specs.cassettes', 'in_memory_iter', {}), props=['C10', 'C19']),
+    dict(job=('specs.cassettes', 'category_units', {}), props=['C10', 'C19']),
+    dict(job=('specs.cassettes', 'file_roundtrip', {}), props=['C07', 'C11', 'C05']),
+    dict(job=('specs.cassettes', 'file_iter', {}), props=['C10', 'C19']),
+    dict(job=('specs.cassettes', 'file_create', {}), props=['C07', 'C10', 'C04']),
+    # ---- S3 cassette and facade
+    dict(job=('specs.s3', 's3_save_get', {}), props=['C07', 'C11', 'C15', 'C17', 'C05']),
+    dict(job=('specs.s3', 's3_close', {}), props=['C15']),
+    dict(job=('specs.s3', 's3_create', {}), props=['C15', 'C16', 'C10', 'C07']),
+    dict(job=('specs.s3', 's3_should_sample', {}), props=['C17']),
+    dict(job=('specs.s3', 's3_init', {}), props=['C15', 'C07', 'C10']),
+    dict(job=('specs.s3', 's3_category', {}), props=['C10', 'C19', 'C17']),
+    dict(job=('specs.s3', 's3_id_prefixes', {}), props=['C16', 'C10']),
+    dict(job=('specs.s3', 's3_prefix_iterators', {}), props=['C10', 'C16', 'C14']),
+    dict(job=('specs.s3', 'facade_units', {}), props=['C15', 'C07']),
+    dict(job=('specs.s3', 'facade_iter_keys', {}), props=['C10', 'C16', 'C15']),
+    dict(job=('specs.s3', 's3_iter_recording_ids', {}), props=['C10', 'C16', 'C15']),
     # ---- key functions
     dict(job=('specs.keys', 'input_key', {}), props=['C06']),
     dict(job=('specs.keys', 'output_key', {}), props=['C03', 'C06']),
@@ -61,8 +82,37 @@ CASES = {
 }
 
 
+def native_witness(name, prop, script, finding=None, args=()):
+    """a native run of the real code as an extra check: exit 0 = holds (valid), 1 = violated (refuted; a known-finding witness when
+    `finding` is listed), anything else = undecided.  Never counted as a discharged proof obligation unless it is a finding witness."""
+    import subprocess, time, os
+
+    def run():
+        t0 = time.time()
+        p = subprocess.run(['/venv/bin/python', os.path.join('/verif', script)] + list(args), capture_output=True, text=True, timeout=300, cwd='/repo',
+                           env=dict(os.environ, PYTHONPATH='/repo'))
+        v = 'valid' if p.returncode == 0 else 'refuted' if p.returncode == 1 else 'undecided'
+        r = {'name': name, 'prop': prop, 'verdict': v, 'time': round(time.time() - t0, 2), 'backend': 'native', 'finding': finding, 'expect_refuted': False,
+             'script': 'native witness %s %s: %s' % (script, ' '.join(args), (p.stdout.strip().splitlines() or [''])[-1][:300])}
+        if v == 'undecided':
+            r['reason'] = p.stderr[-500:]
+        return {'results': [r], 'bounded': [{'unit': script, 'kind': 'native witness (concrete run of the real code, not a proof)', 'args': list(args)}]}
+    return run
+
+
 def extra_for(prop, tier, seed):
     out = []
+    if prop == 'C07':
+        out.append(native_witness('C07/native/s3_data_key_named__metadata_round_trip', 'C07', 'replay/witness/c07_reserved_keys.py', 'C07-s3-metadata-key', ['s3']))
+        out.append(native_witness('C07/native/jsonpickle_tag_keys_round_trip', 'C07', 'replay/witness/c07_reserved_keys.py', 'C07-jsonpickle-tag-keys', ['tags']))
+    if prop == 'C06':
+        out.append(native_witness('C06/native/set_argument_key_is_hash_seed_independent', 'C06', 'replay/witness/c06_set_hashseed.py', 'C06-set-hash-seed'))
+    if prop in ('C07', 'C10'):
+        from specs import cassettes
+        out.append(lambda: (lambda r: dict(r, results=[x for x in r['results'] if x['prop'] == prop]))(cassettes.lemmas()))
+    if prop in ('C15', 'C07', 'C16'):
+        from specs import s3
+        out.append(lambda: (lambda r: dict(r, results=[x for x in r['results'] if x['prop'] == prop]))(s3.lemmas()))
     if prop == 'C08':
         from specs import equalizer
         out.append(equalizer.lemmas)
@@ -146,4 +196,26 @@ CLAIMS['C13'] = dict(text='Safety parts discharged on the real code: recycle-age
                      note=TB + 'NOT decided here (assumed, OS facts): a signalled idle worker really exits, SIGKILL delivery (os.kill failing is tolerated by the code and '
                           'leaves a possibly live worker: stated), zombies, wall-clock accuracy, finalisation of a generator that is dropped without close(). '
                           'Termination of the outer loop follows from the finite id sequence; the await loop from the monotone clock (A13).')
+CLAIMS['C07'] = dict(text='save / get contracts of the three real cassettes against one abstract view (id, key set, CP-copy under every key, equal metadata; other ids '
+                          'untouched; unknown id raises NoSuchRecording; metadata fetched alone agrees), MemoryRecording / Recording methods against the Recording '
+                          'interface contract, facade put/get over the bucket ghost, storage-key injectivity lemmas (cvc5).',
+                     note=TB + 'jsonpickle, zlib, file system and boto3 are assumed contracts (A1, A2, A4, A5). Two recorded known findings (reserved key texts).')
+CLAIMS['C10'] = dict(text='Lookup contracts of the three real iter_recording_ids against the same abstract view: loop invariants with a filter spec function (ids of the '
+                          'stored recordings of exactly that category whose metadata matches, in storage order), first min(limit, matches) of them, nothing modified; '
+                          'S3: day-iterator construction, facade listing generator (relevant keys in listing order, stops at the limit), round-robin generator '
+                          '(each key yields exactly its id, an iterator is dropped only when exhausted, stops only at the limit or when all are dropped).',
+                     note=TB + 'limit is None or >= 1 (limit = 0 is outside the precondition: in-memory ignores it, S3 lists nothing). Membership / no-duplicates of the filter '
+                          'spec function follow by the standard filter-map lemma (cited, not machine-checked). A4 / A5 / A6 assumed.')
+CLAIMS['C11'] = dict(text='Freshness postconditions: every get_recording of the three real cassettes returns a recording, data dict and metadata dict allocated in this call '
+                          '(pairwise distinct, disjoint from everything that existed), values under every key are CP-copies; MemoryRecording.get_data returns a fresh '
+                          'structural copy; play_data and the replay step hand out copies; copy-on-interception stores the copy.',
+                     note=TB + 'that decode / pickle_copy allocate a fresh graph for nested values is A1 (assumed); get_data_direct / get_metadata hand out internal objects by design.')
+CLAIMS['C15'] = dict(text='Bucket-ghost contracts of the real S3 cassette: read-only never mutates (save/create raise first), every put is one of the two keys of the saved '
+                          'recording under the own prefix, after EACH individual put "metadata object present => full object present" for every id, close deletes exactly '
+                          'its two folders and only if writable and transient, reads never mutate; prefix-disjointness lemma (cvc5).',
+                     note=TB + 'boto3 semantics assumed (A5).')
+CLAIMS['C16'] = dict(text='Window lemma in linear integer arithmetic over the contracts of the real _get_id_prefixes (one prefix per calendar day from day(start) to '
+                          'day(end), map rule over range), _get_days_iterators (window passed unchanged to every folder iterator), the facade predicate '
+                          '(start <= last_modified <= end) and create_new_recording (day folder of the creation instant).',
+                     note=TB + 'A7: instants are integers, strftime("%Y%m%d") injective per day, today() = utcnow().')
 NOT_APPLICABLE = {}
